@@ -160,7 +160,7 @@ func VerifyEventSignatures(ctx context.Context, e PDU, verifier JSONVerifier, us
 
 func getMXIDMapping(e PDU) (*MXIDMapping, error) {
 	var content MemberContent
-	err := json.Unmarshal(e.Content(), &content)
+	err := unmarshalExact(e.Content(), &content)
 	if err != nil {
 		return nil, err
 	}
@@ -381,7 +381,7 @@ func signEvent(signingName string, keyID KeyID, privateKey ed25519.PrivateKey, e
 	var signedEvent struct {
 		Signatures spec.RawJSON `json:"signatures"`
 	}
-	if err := json.Unmarshal(signedJSON, &signedEvent); err != nil {
+	if err := unmarshalExact(signedJSON, &signedEvent); err != nil {
 		return nil, err
 	}
 
